@@ -224,6 +224,24 @@ impl<K: std::fmt::Debug + Key, V: std::fmt::Debug + Value> fmt::Display for TxIn
     }
 }
 
+/// Verification hooks (feature `verif`, off by default): read-only projection of the index.
+#[cfg(feature = "verif")]
+impl<K, V> TxIndex<K, V>
+where
+    K: Key + Copy,
+    V: Value + Clone,
+{
+    /// All the (key, value) pairs currently held.
+    pub fn verif_entries(&self) -> Vec<(K, V)> {
+        self.index.iter().map(|(k, v)| (*k, v.clone())).collect()
+    }
+
+    /// The block hashes currently covered, oldest first.
+    pub fn verif_blocks(&self) -> Vec<BlockHash> {
+        self.blocks.iter().cloned().collect()
+    }
+}
+
 #[cfg(test)]
 mod tests {
     use super::*;
